@@ -10,8 +10,10 @@ CLAIMED = {
         "Kernel-checked theorem C13_getitem: for every element type, shape and key (ints, slices with any start/stop/step, "
         "pairs, coordinate lists) the model of Array2D._getitem_impl returns exactly what per-axis Python list indexing "
         "selects from the equivalent list of lists (same elements, order, result kind/shape, same exception); C13_reshape "
-        "for flatten/reshape. Model tied to /repo by an exhaustive small-scope + random correspondence run against the real "
-        "arrays, and the spec itself is run against CPython lists.",
+        "for flatten/reshape; C13_nested / C13_nested_getitem: an array built from a nested (list-of-rows) argument with the shape "
+        "inferred equals the array built from the flattened buffer, so indexing it selects what indexing the nested list selects. "
+        "Model tied to /repo by an exhaustive small-scope + random correspondence run against the real arrays (flat and nested "
+        "constructors, Boolean indices, lookup histories with source-list mutation), and the spec itself is run against CPython lists.",
         "Trusted: Lean kernel + propext/Classical.choice/Quot.sound; the Lean model of _parse_range/_range_size/_getitem_impl "
         "(hand-written, correspondence-checked); CPython's slice.indices and list indexing (modelled by sliceIndices / "
         "Spec.sliceSel, validated against CPython on every run); 1-D arrays delegate to list indexing (checked by correspondence).",
@@ -242,8 +244,10 @@ CLAIMED = {
         "problem-level term, every board size and every value in its domain: deserialize_problem(serialize_problem(v)) = v), "
         "C15_seq_terminates, C15_borders_roundtrip, C15_rooms and C15_valued_rooms (all h,w >= 1, rooms and cells in ANY order: the "
         "decoded partition is the canonical form, values stay attached to their rooms; includes flood-fill correctness), "
-        "C15_puzzles_wf (the REGENERATED puzzle combinators are well-formed terms). Tie: random combinator terms and values through "
-        "the real classes vs the model (outcome kinds included), regenerated puzzle combinator table.",
+        "C15_puzzles_wf (the REGENERATED puzzle combinators are well-formed terms), C15_wf_ctorOk (every well-formed term is accepted "
+        "by the model of the real constructors' argument checks). Tie: random combinator terms and values through "
+        "the real classes vs the model (outcome kinds and constructor acceptance included, every constructor argument form, "
+        "aliasing of decoded values with the combinator's own tables), regenerated puzzle combinator table.",
         "Trusted: Lean kernel + standard axioms; hand-written model of the combinator classes tied by correspondence; strings "
         "modelled as lists of Unicode scalar values (lone surrogates excluded); degenerate terms whose Seq base can succeed without "
         "consuming or producing anything loop forever in Python and are excluded by `wf` (recorded as a termination observation).",
